@@ -1047,7 +1047,12 @@ func (dsc *dataStoreCommand) dictScanUnlocked(data *redisDict, cursor uint32, pa
 	count int,
 	isMatch func(item *redisDictItem) any) (output respValue) {
 	result := make([]any, 2)
-	matches := make([]any, 0, count)
+	// the count comes from the client: it is only a hint for the allocation
+	hint := count
+	if hint > data.count {
+		hint = data.count
+	}
+	matches := make([]any, 0, hint)
 
 	highBit := uint32(len(data.buckets)) // always a power of 2
 	shift := 32 - bitPosition(highBit)
